@@ -230,6 +230,7 @@ Definition ostate := (list seg * Z * bool * Z)%type.
 Definition frames_at (bits : Z) (segs : list seg) (pos : Z) : list frame :=
   let tl := 2 ^ bits in view (part_of segs ((pos / tl) mod 3)) (pos mod tl).
 
+(* before fix C05-block-poll-limit block limits with offset + limit >= 2^31 were not judged; now every i32 limit is *)
 Definition block_excluded (bits pos blimit : Z) : bool := negb (in_i32 (pos mod 2 ^ bits + blimit)).
 
 Definition judge_op (bits init session : Z) (st : ostate) (o : cop) (ob : cobs) : bool :=
@@ -263,9 +264,7 @@ Definition judge_op (bits init session : Z) (st : ostate) (o : cop) (ob : cobs) 
       | CBounded b limit => judge_poll (Some (resolve pos b)) limit [] pos off fs ob
       | CControlled limit sc => judge_poll None limit sc pos off fs ob
       | CBControlled b limit sc => judge_poll (Some (resolve pos b)) limit sc pos off fs ob
-      | CBlock bl =>
-          if block_excluded bits pos bl then judge_idle Panic pos ob || judge_block session bl pos off fs ob
-          else judge_block session bl pos off fs ob
+      | CBlock bl => judge_block session bl pos off fs ob
       | _ => true
       end
   end.
